@@ -1,8 +1,8 @@
 //! Case specifications shared by the project-level checks: a case is a pure function of three
 //! proptest-generated values (project tape, variant selector, mutation tape).
-use gen_project::mutate::{self, Mutation, Rule, ALL_RULES};
-use gen_project::tape::Tape;
-use gen_project::{build_project, render, GenConfig, Project, Rendered, Sel, SelDirective, Target};
+use crate::mutate::{self, Mutation, Rule, ALL_RULES};
+use crate::tape::Tape;
+use crate::{build_project, render, GenConfig, Project, Rendered, Sel, SelDirective, Target};
 use proptest::prelude::*;
 use serde_json::{json, Value};
 
@@ -14,7 +14,7 @@ pub struct CaseSpec {
 }
 
 pub fn case_strategy() -> impl Strategy<Value = CaseSpec> {
-    (gen_project::tape_strategy(400), any::<u16>(), prop::collection::vec(any::<u16>(), 0..24))
+    (crate::tape_strategy(400), any::<u16>(), prop::collection::vec(any::<u16>(), 0..24))
         .prop_map(|(tape, variant, mtape)| CaseSpec { tape, variant, mtape })
 }
 
@@ -211,7 +211,7 @@ pub fn cyclic_case(spec: &CaseSpec, exclude: &Exclusions) -> Option<Case> {
             .vars
             .iter()
             .filter(|v| v.ty.is_non_null() && v.default.is_none())
-            .map(|v| (v.name.clone(), gen_project::Val::Null))
+            .map(|v| (v.name.clone(), crate::Val::Null))
             .collect(),
         directive: SelDirective::None,
         children: None,
